@@ -578,12 +578,10 @@ pub fn summarise(batch: &BatchOut, classes: &[ClassSpec], env: &Env, rep: &Repor
     p.distinct_schedules = sch.len() as u64;
     p.faults = stats.faults.iter().map(|(k, v)| (k.to_string(), *v)).collect();
     p.probes = stats.probes.iter().map(|(k, v)| (k.to_string(), *v)).collect();
-    if let Ok(m) = simtypes::ALT_ROUTES_TAKEN.lock() {
-        // process-wide reach counter (includes the executions spent on shrinking): how often each operation went through
-        // an alternative public route instead of the struct-level method
-        for (k, v) in m.iter() {
-            p.probes.insert(format!("alternative-route-taken:{}", k), *v);
-        }
+    // process-wide reach counter (includes the executions spent on shrinking): how often each operation went through
+    // an alternative public route instead of the struct-level method
+    for (k, v) in simtypes::alt_routes_taken() {
+        p.probes.insert(format!("alternative-route-taken:{}", k), v);
     }
     p.lib_calls = stats.lib_calls;
     p.events = stats.events;
